@@ -8,6 +8,8 @@
                      ([op_node] below is what the wrappers of functional.py produce); wn k = local
                      derivative for child slot k, fixed at construction
      Backward r s    r.backward(s)                           (Engine/Sweep.v)
+     BackwardFails r r.backward(g) with g of the wrong shape (or r not requiring grad), the exception caught by the
+                     caller: the ordering loop's zero_() calls have happened, nothing else (Sweep.backward_fails)
      ZeroTensor v    v.zero_()            tensor.py: self.grad = Tensor(np.zeros_like(self.data))
      ZeroModule ps   Module.zero_grad()   nn/modules.py:  for p in parameters(): if p.requires_grad: p.zero_()
      ZeroOptim ps    Optimizer.zero_grad() optim/optimizers.py: for p in self.parameters: p.zero_()
@@ -51,6 +53,7 @@ Record hstate := mkH {
 Inductive event :=
 | Build (nd : node) (wn : nat -> W)
 | Backward (root : nat) (seed : V)
+| BackwardFails (root : nat)
 | ZeroTensor (v : nat)
 | ZeroModule (ps : list nat)
 | ZeroOptim (ps : list nat)
@@ -84,6 +87,7 @@ Definition step (s : hstate) (e : event) : option hstate :=
       | None => None
       | Some (b', _) => Some (mkH g' w' b' (h_mode s))
       end
+  | BackwardFails r => Some (mkH g' w' (backward_fails A g r (h_b s)) (h_mode s))
   | ZeroTensor v =>
       if v <? length g then Some (mkH g' w' (zero_buf (h_b s) v) (h_mode s)) else None
   | ZeroModule ps =>
@@ -132,10 +136,16 @@ Fixpoint trace (s : hstate) (h : list event) : list (option (list (option V) * l
    whose root reaches the tensor adds the path sum of that call; nothing else touches it.             *)
 Definition oget (a : option V) : V := match a with Some x => x | None => vzero A end.
 
+Definition touches (g : arena) (r v : nat) : bool :=
+  req (getn g r) && reachb g r v && negb (v =? r) && req (getn g v).
+
 Definition acc_step (g : arena) (w : weights A) (e : event) (v : nat) (a : option V) : option V :=
   match e with
   | Backward r seed =>
       if reachb g r v && req (getn g v) then Some (vadd A (oget a) (pathval A g w r v seed)) else a
+  | BackwardFails r =>
+      (* a failed call never changes a value: at most it creates the (zero) buffer of a leaf below the root *)
+      if touches g r v then Some (oget a) else a
   | ZeroTensor u => if u =? v then Some (vzero A) else a
   | ZeroModule ps => if mem v ps && req (getn g v) then Some (vzero A) else a
   | ZeroOptim ps => if mem v ps then Some (vzero A) else a
@@ -174,6 +184,17 @@ Fixpoint contribs (g : arena) (w : weights A) (h : list event) (v : nat) : list 
       end ++ contribs (evolve_g g e) (evolve_w g w e) h' v
   end.
 
+(* did a failed call create v's buffer ? *)
+Fixpoint touched (g : arena) (h : list event) (v : nat) : bool :=
+  match h with
+  | [] => false
+  | e :: h' =>
+      match e with
+      | BackwardFails r => touches g r v
+      | _ => false
+      end || touched (evolve_g g e) h' v
+  end.
+
 (* did any backward call reach v ? *)
 Fixpoint reached (g : arena) (h : list event) (v : nat) : bool :=
   match h with
@@ -197,6 +218,7 @@ End History.
 
 Arguments Build {A} _ _.
 Arguments Backward {A} _ _.
+Arguments BackwardFails {A} _.
 Arguments ZeroTensor {A} _.
 Arguments ZeroModule {A} _.
 Arguments ZeroOptim {A} _.
